@@ -10,6 +10,8 @@ namespace Pyttb
 
 variable {α : Type}
 
+namespace ML
+
 /-- A result that may be a Python scalar, a dense tensor, a sparse tensor, or a bare 1-d
 `ndarray`: one denotation for all of them. -/
 inductive Res (α : Type) where
@@ -32,8 +34,10 @@ def Res.shape : Res α → List Nat
   | .sparse s => s.shape
   | .vec v => [v.length]
 
+end ML
+
 /-- A scalar-or-dense result as a `Res`. -/
-def ScalarOr.toRes : ScalarOr α (Dense α) → Res α
+def ScalarOr.toRes : ScalarOr α (Dense α) → ML.Res α
   | .scalar v => .scalar v
   | .obj t => .dense t
 
@@ -121,7 +125,7 @@ def ttv [Add α] [Mul α] [Zero α] (T : Dense α) (vs : List (List α)) (dims e
   | .ok pairs => T.ttvCore pairs
 
 /-- `tensor.ttm(matrix, n, transpose)` for one `p × q` matrix given with its extents. -/
-def ttm1 [Add α] [Mul α] [Zero α] (T : Dense α) (M : Mat α) (p q : Nat) (n : Nat) (tr : Bool) :
+def ttmMode [Add α] [Mul α] [Zero α] (T : Dense α) (M : Mat α) (p q : Nat) (n : Nat) (tr : Bool) :
     Except Reject (Dense α) :=
   let N := T.shape.length
   if n ≥ N then .error .reject else
@@ -151,7 +155,7 @@ structure MatArg (α : Type) where
 mode, in increasing mode order. -/
 def ttmList [Add α] [Mul α] [Zero α] (T : Dense α) (pairs : List (Nat × MatArg α)) (tr : Bool) :
     Except Reject (Dense α) :=
-  pairs.foldlM (fun Y p => Y.ttm1 p.2.rows p.2.m p.2.n p.1 tr) T
+  pairs.foldlM (fun Y p => Y.ttmMode p.2.rows p.2.m p.2.n p.1 tr) T
 
 def ttm [Add α] [Mul α] [Zero α] (T : Dense α) (Ms : List (MatArg α)) (dims excl : Option (List Int))
     (tr : Bool) : Except Reject (Dense α) :=
